@@ -4,7 +4,11 @@ Facts:
   * disconnect_records_parent_hash: in wallet/chainntfns.go disconnectBlock, the
     block stamp passed to w.Manager.SetSyncedTo carries the parent's hash that
     was fetched with w.Manager.BlockHash(ns, b.Height - 1);
-  * max_reorg_depth: waddrmgr.MaxReorgDepth (and staleHeight(h) = h - MaxReorgDepth).
+  * max_reorg_depth: waddrmgr.MaxReorgDepth (and staleHeight(h) = h - MaxReorgDepth);
+  * recovery_before_rollback: in wallet/wallet.go syncWithChain the statement
+    `if w.recoveryWindow > 0 { w.recovery(...) }` stands before the transaction
+    that holds the rollback loop (source path only: no probe; a shape that is
+    not recognised raises).
 
 The model Sync/Sync.v takes both as parameters; the theorems of
 Properties/C15.v take `disconnect_records_parent_hash = true` (and
@@ -128,12 +132,16 @@ def facts(repo):
         s, src_err = {}, str(e)
     rel = lambda m: (m or "").replace(repo.rstrip("/") + "/", "")      # noqa: E731
     h, d = s.get("records_parent_hash") or {}, s.get("max_reorg_depth") or {}
+    ro = s.get("recovery_before_rollback") or {}
+    if not ro.get("ok"):
+        raise ExtractError("recovery_before_rollback: order of recovery and rollback loop in syncWithChain not recognised: %s" % (
+            rel(ro.get("why") or src_err or "no answer")))
     need = []
     if not h.get("ok"):
         need.append(("disconnect_records_parent_hash", rel(h.get("why") or src_err or "no answer")))
     if not d.get("ok"):
         need.append(("max_reorg_depth", rel(d.get("why") or src_err or "no answer")))
-    out = dict(info=s)
+    out = dict(info=s, rec_first=bool(ro["value"]), rec_why=ro.get("why", ""))
     if h.get("ok"):
         out["hash"], out["why"] = bool(h["value"]), h.get("why", "")
     if d.get("ok"):
@@ -173,11 +181,15 @@ Definition disconnect_records_parent_hash : bool := %s.
 (* waddrmgr.MaxReorgDepth; staleHeight(h) = h - MaxReorgDepth *)
 Definition max_reorg_depth : Z := %d.
 
+(* %s *)
+Definition recovery_before_rollback : bool := %s.
+
 (* informational (not used by the model):
    known-block test of disconnectBlock : %s
    TxStore.Rollback in disconnectBlock  : %s
    TxStore.Rollback in syncWithChain    : %s *)
 """ % (sanitize(f["source_line"]), sanitize(f["why"]), "true" if f["hash"] else "false", f["depth"],
+       sanitize(f["rec_why"]), "true" if f["rec_first"] else "false",
        sanitize(info.get("known_block_test")), sanitize(info.get("rollback_arg")), sanitize(info.get("startup_rollback")))
 
 
